@@ -575,6 +575,11 @@ def try_candidate(p: Pert, value: Any) -> Tuple[str, Dict[str, Any]]:
         k = classify_reload_exc(e)
         if k == "semantic":
             return "invalid", {"why": "reload (consistency check): " + _exc(e)}
+        if k != "syntax" and type(value).__name__ == "DataType":
+            # a changed data type makes the literals that are typed by it (limits, constants,
+            # default values - written for the old type) unreadable: the candidate was no
+            # local change of one attribute
+            return "invalid", {"why": "reload (literals of the old type): " + _exc(e)}
         return ("xml-syntax" if k == "syntax" else "reload-raises"), info
     try:
         got = getattr(H.get_path(db2, path), field)
